@@ -35,6 +35,9 @@ TRIPLES = [
     # entries alone, in a conjunction, under OR and under NOT, whatever shortcut the first two allow
     ["name = '*.env'", "name like '%.txt'", "ext = 'env'"],
     ["name = '*.TXT'", "size >= 100", "name === '.env'"],
+    # unquoted patterns with characters that are operators elsewhere (`|`, `&`): the word is the operand, up to the next blank
+    ["name =~ abc|xyz", "size > 100", "name !=~ q|b"],
+    ["ext rx txt|rs", "name =~ a&b|^a", "uid = 0"],
 ]
 
 
